@@ -30,7 +30,8 @@ def blkkey(top, blk):
 
 
 def names(xs):
-  return sorted(repr(x) for x in xs)
+  # functions (@s.func) have no hierarchical name: their plain name
+  return sorted(repr(x) if hasattr(x, "_dsl") else f"func {getattr(x, '__name__', repr(x))}" for x in xs)
 
 
 def meta(top):
@@ -60,6 +61,13 @@ def meta(top):
   m["RD_U"] = sorted((repr(k), tuple(sorted((s, blkkey(top, b)) for s, b in v))) for k, v in rdu.items() if v)
   m["WR_U"] = sorted((repr(k), tuple(sorted((s, blkkey(top, b)) for s, b in v))) for k, v in wru.items() if v)
   m["M"] = sorted((_mname(top, a), _mname(top, b), bool(eq)) for a, b, eq in mm)
+  # function tables of every component (not exposed through a query API)
+  for tab in ("func_reads", "func_writes", "func_calls"):
+    rows = []
+    for c in top.get_all_components():
+      for f, objs in getattr(c._dsl, tab, {}).items():
+        rows.append((repr(c), f.__name__, tuple(sorted(getattr(o, "__name__", None) or repr(o) for o in objs))))
+    m[tab] = sorted(rows)
   return m
 
 
